@@ -448,6 +448,8 @@ fn compute_query_responses(
         .server
         .new_worker_query(&queries)
         .context("cannot compute worker query")?;
+    #[cfg(it4innovations_hyperqueue_verif)]
+    let response = crate::verif::autoalloc::override_worker_query(&queries, response)?;
     log::debug!("Scheduler query response: {response:?}");
 
     // Merge responses back into a single array
@@ -1240,6 +1242,45 @@ pub fn prepare_queue_cleanup(
             async move { (future.await, allocation_id) }
         })
         .collect()
+}
+
+/// Verification hooks: thin wrappers that make the private entry points of this module callable from
+/// `crate::verif::autoalloc` (no logic of their own).
+#[cfg(it4innovations_hyperqueue_verif)]
+pub(crate) mod verif_hooks {
+    use super::{AutoAllocMessage, AutoAllocState, AutoallocSenders, EventStreamer, ServerRef};
+
+    pub(crate) async fn handle_message(
+        autoalloc: &mut AutoAllocState,
+        events: &EventStreamer,
+        message: AutoAllocMessage,
+    ) -> bool {
+        super::handle_message(autoalloc, events, message).await
+    }
+
+    pub(crate) async fn perform_submits(
+        autoalloc: &mut AutoAllocState,
+        server: &ServerRef,
+        events: &EventStreamer,
+    ) -> anyhow::Result<()> {
+        let senders = AutoallocSenders {
+            server: server.clone(),
+            events: events.clone(),
+        };
+        super::perform_submits(autoalloc, &senders).await
+    }
+
+    pub(crate) async fn do_periodic_update(
+        autoalloc: &mut AutoAllocState,
+        server: &ServerRef,
+        events: &EventStreamer,
+    ) {
+        let senders = AutoallocSenders {
+            server: server.clone(),
+            events: events.clone(),
+        };
+        super::do_periodic_update(&senders, autoalloc).await
+    }
 }
 
 #[cfg(test)]
